@@ -47,6 +47,4 @@ Definition run_session (slot nn szz : N) (frs : list (nat * N)) : list result * 
   let '(s, rs) := feed g (start_session g erased_mem) frs in
   (rs, wlog (store s), capL g).
 
-Require Extraction. Require Import ExtrOcamlBasic.
-Extraction "updater_model.ml" run_session.
 
